@@ -731,4 +731,134 @@ theorem front_final_registry (cfg : Cfg) (fs : FS) (builtins : Registry) (root :
   rw [progRegistry_order]
   exact h1
 
+/-! ### the registry a file is read against
+
+`finishFile` registers a file's own declarations and binds its references and checks its rules against the registry
+*as it is at that moment*. To say which registry that is for file number `i` of a run, the call tree of `parseOne` is
+followed with the model's own functions (nothing is instrumented): a load list is run up to a directive (`doLoads` on
+the prefix — `doLoads_append` is the justification), and the nested parse of that directive starts in the state
+reached there. -/
+
+theorem doLoads_append (cfg : Cfg) (fs : FS) (rec : ParseFn) (stack : List APath) (file spelled : APath)
+    (pre post : List LoadAt) (res : PResult) (st : PState) :
+    doLoads cfg fs rec stack file spelled (pre ++ post) res st =
+      match doLoads cfg fs rec stack file spelled pre res st with
+      | .error a => .error a
+      | .ok (r1, s1) => doLoads cfg fs rec stack file spelled post r1 s1 := by
+  induction pre generalizing res st with
+  | nil => simp [doLoads]
+  | cons l ls ih =>
+    simp only [List.cons_append, doLoads]
+    split
+    · exact ih _ _
+    · split
+      · exact ih _ _
+      · split
+        · split
+          · exact ih _ _
+          · split
+            · exact ih _ _
+            · split
+              · rfl
+              · exact ih _ _
+        · split
+          · split
+            · rfl
+            · exact ih _ _
+          · exact ih _ _
+          · exact ih _ _
+
+/-- `FinishedAt cfg fs fuel stack file spelled st q r`: in the course of the call
+    `parseOne cfg fs fuel stack file spelled st`, the own content of file `q` is finished, and `r` is the registry its
+    references are bound in and its rules are checked against (the registry at that moment, `q`'s own declarations
+    registered). -/
+inductive FinishedAt (cfg : Cfg) (fs : FS) : Nat → List APath → APath → APath → PState → APath → Registry → Prop
+  /-- the file of the call itself: after all its loads -/
+  | own {n : Nat} {stack : List APath} {file spelled : APath} {st : PState} {text : String} {toks : List Token}
+      {loads : List LoadAt} {contents : List Content} {res1 : PResult} {st1 : PState} {r : Registry} :
+      fs.get file = some (.idl text) → lex text = some toks → parseFile toks = some ⟨loads, contents⟩ →
+      doLoads cfg fs (parseOne cfg fs n) (stack ++ [file]) file spelled loads {} st = .ok (res1, st1) →
+      registerAll st1.reg (walkContents { file := showPath file, keys := cfg.keys, defaultDeriving := cfg.defaultDeriving } []
+        contents).regs = .ok r →
+      FinishedAt cfg fs (n + 1) stack file spelled st file r
+  /-- a file finished in the nested parse that an `@import` line `l` of the call's file starts -/
+  | nested {n : Nat} {stack : List APath} {file spelled : APath} {st : PState} {text : String} {toks : List Token}
+      {pre : List LoadAt} {l : LoadAt} {post : List LoadAt} {contents : List Content} {res1 : PResult} {st1 : PState}
+      {c : Cand} {p q : APath} {r : Registry} :
+      fs.get file = some (.idl text) → lex text = some toks → parseFile toks = some ⟨pre ++ l :: post, contents⟩ →
+      doLoads cfg fs (parseOne cfg fs n) (stack ++ [file]) file spelled pre {} st = .ok (res1, st1) →
+      findFile cfg fs spelled (filepathText l.lit) = some (c, p) →
+      (c.spelledAbsolute && c.path == spelled) = false → l.isImport = true →
+      (stack ++ [file]).contains p = false → st1.imported.contains p = false →
+      FinishedAt cfg fs n (stack ++ [file]) p c.path { st1 with imported := st1.imported ++ [p] } q r →
+      FinishedAt cfg fs (n + 1) stack file spelled st q r
+
+theorem Sim.enter {fs : FS} {R0 : Registry} {stack : List APath} {st : PState} {acc : OrderAcc} (p : APath)
+    (hsim : Sim fs R0 stack st acc) :
+    Sim fs R0 (stack ++ [p]) { st with imported := st.imported ++ [p] } (acc.1 ++ [p], acc.2) := by
+  refine ⟨fun q => ?_, hsim.2⟩
+  have := hsim.1 q
+  simp only [List.mem_append, List.mem_singleton, this]
+  constructor
+  · rintro ((h1 | h1) | h1)
+    · exact Or.inl (Or.inl h1)
+    · exact Or.inr (Or.inl h1)
+    · exact Or.inl (Or.inr h1)
+  · rintro ((h1 | h1) | (h1 | h1))
+    · exact Or.inl (Or.inl h1)
+    · exact Or.inr h1
+    · exact Or.inl (Or.inr h1)
+    · exact Or.inr h1
+
+/-- A file finished during a call is a `finished` event of the search, and the registry it is read against is the start
+    registry plus what the events up to and including that one add. -/
+theorem finishedAt_events (cfg : Cfg) (fs : FS) (R0 : Registry) {fuel : Nat} {stack : List APath} {file spelled : APath}
+    {st : PState} {q : APath} {r : Registry} (hfin : FinishedAt cfg fs fuel stack file spelled st q r) :
+    ∀ acc, SelfOk fs spelled file → Sim fs R0 (stack ++ [file]) st acc →
+      ∃ pre post, (loadOrder cfg fs fuel file spelled acc).2 = pre ++ LoadEvent.finished q :: post
+        ∧ r = R0 ++ (pre ++ [LoadEvent.finished q]).flatMap (evDefs fs) := by
+  induction hfin with
+  | @own n stack file spelled st text toks loads contents res1 st1 r hfile hlex hparse hd hreg =>
+    intro acc hself hsim
+    have hpt : parseText text = some { loads := loads, contents := contents } := by
+      simp [parseText, hlex, hparse]
+    have h1 := doLoads_order cfg fs n R0
+      (fun stack file spelled st res st' acc hh hs hm => parseOne_order cfg fs R0 n stack file spelled st res st' acc hh hs hm)
+      (stack ++ [file]) file spelled text hself hfile (by simp) loads _ st res1 st1 acc hd hsim
+    have hlo : loadOrder cfg fs (n + 1) file spelled acc
+        = ((loads.foldl (loadStep cfg fs (loadOrder cfg fs n) spelled) acc).1,
+           (loads.foldl (loadStep cfg fs (loadOrder cfg fs n) spelled) acc).2 ++ [.finished file]) := by
+      simp only [loadOrder, hfile, hpt]
+    refine ⟨(loads.foldl (loadStep cfg fs (loadOrder cfg fs n) spelled) acc).2, [], by rw [hlo], ?_⟩
+    have hr := registerAll_ok_eq _ _ _ hreg
+    rw [defs_file] at hr
+    simp only [hr, h1.2, List.flatMap_append, List.flatMap_cons, List.flatMap_nil, List.append_nil,
+      evDefs_finished fs file text _ hfile hpt, List.append_assoc]
+  | @nested n stack file spelled st text toks pre l post contents res1 st1 c p q r hfile hlex hparse hd hfind hs himp hst hi _ ih =>
+    intro acc hself hsim
+    have hpt : parseText text = some { loads := pre ++ l :: post, contents := contents } := by
+      simp [parseText, hlex, hparse]
+    have h1 := doLoads_order cfg fs n R0
+      (fun stack file spelled st res st' acc hh hs hm => parseOne_order cfg fs R0 n stack file spelled st res st' acc hh hs hm)
+      (stack ++ [file]) file spelled text hself hfile (by simp) pre _ st res1 st1 acc hd hsim
+    have hst' : p ∉ stack ++ [file] := by simpa using hst
+    have hi' : p ∉ st1.imported := by simpa using hi
+    have hv : p ∉ (pre.foldl (loadStep cfg fs (loadOrder cfg fs n) spelled) acc).1 := fun hm => by
+      rcases (h1.1 p).mp hm with h2 | h2
+      · exact hst' h2
+      · exact hi' h2
+    have hstep : loadStep cfg fs (loadOrder cfg fs n) spelled (pre.foldl (loadStep cfg fs (loadOrder cfg fs n) spelled) acc) l
+        = loadOrder cfg fs n p c.path ((pre.foldl (loadStep cfg fs (loadOrder cfg fs n) spelled) acc).1 ++ [p],
+            (pre.foldl (loadStep cfg fs (loadOrder cfg fs n) spelled) acc).2) := by
+      simp [loadStep, hfind, himp, hv]
+    obtain ⟨pre', post', he, hr⟩ := ih _ (SelfOk.found cfg fs spelled _ c p hfind) (Sim.enter p h1)
+    obtain ⟨ext, hext⟩ := foldl_loadStep_extends cfg fs (loadOrder cfg fs n) (fun p s a => loadOrder_extends cfg fs n p s a)
+      spelled post (loadStep cfg fs (loadOrder cfg fs n) spelled (pre.foldl (loadStep cfg fs (loadOrder cfg fs n) spelled) acc) l)
+    have hlo : (loadOrder cfg fs (n + 1) file spelled acc).2
+        = ((pre ++ l :: post).foldl (loadStep cfg fs (loadOrder cfg fs n) spelled) acc).2 ++ [.finished file] := by
+      simp only [loadOrder, hfile, hpt]
+    refine ⟨pre', post' ++ ext ++ [.finished file], ?_, hr⟩
+    rw [hlo, List.foldl_append, List.foldl_cons, hext, hstep, he]
+    simp only [List.append_assoc, List.cons_append]
+
 end Pydjinni.Front
